@@ -185,7 +185,7 @@ Inductive tcp_verdict :=
   | TcpNone                (* no ':' : the default port *)
   | TcpOk (p : Z)          (* ASCII decimal 1..65534 *)
   | TcpBad                 (* non-numeric, <= 0, >= 65535, more than one ':' *)
-  | TcpLenient.            (* digits mixed with sign / underscore / blanks only: the property is silent *)
+  | TcpLenient.            (* digits mixed with '+' / underscore / blanks only: the property is silent *)
 Inductive hop_verdict := HOk (h : hop) | HUnspec | HBad (c : rclass).
 Inductive route_verdict := RouteOk (hs : list hop) | RouteUnspec | RouteReject (c : rclass).
 
@@ -200,7 +200,10 @@ Definition classify_tcp (cs : list text) : tcp_verdict :=
            then (if wf_tcp (dval p)
                  then (if numeral_ok p then TcpOk (dval p) else TcpLenient)
                  else TcpBad)
-           else if forallb lenient_char p && existsb is_ascii_digit p then TcpLenient else TcpBad
+           else if forallb lenient_char p && existsb is_ascii_digit p
+                then (if existsb (fun c => c =? 45) p then TcpBad     (* a minus sign: <= 0 or malformed *)
+                      else TcpLenient)
+                else TcpBad
   | _ => TcpBad
   end.
 
@@ -281,6 +284,18 @@ Definition must_accept (v : verdict) : option (text * option Z * list hop) :=
 Definition in_grammar_strict (auto : bool) (s : text) : bool :=
   match must_accept (ref_parse auto s) with Some _ => true | None => false end.
 Definition in_grammar (auto : bool) (s : text) : bool := negb (must_reject (ref_parse auto s)).
+
+(* the zones about which the property is silent: lenient TCP numerals, reserved / non-CIP port
+   numbers, over-long numerals, IPv6-looking links, address/address shortcuts, routes without a
+   wire form *)
+Definition silent (v : verdict) : bool :=
+  match v_tcp v, v_route v with
+  | TcpBad, _ => false
+  | _, RouteReject _ => false
+  | TcpLenient, _ => true
+  | _, RouteUnspec => true
+  | _, RouteOk hs => negb (fits hs)
+  end.
 
 (* the implementation limit this specification knows about (DESIGN.md F20) *)
 Definition small_ports (hs : list hop) : bool := forallb (fun h => h_port h <=? 14) hs.
